@@ -366,11 +366,17 @@ namespace igris
         void erase(iterator first, iterator last)
         {
             size_t sz = last - first;
-            for (size_t i = 0; i < sz; ++i)
+            if (sz == 0)
+                return;
+            // close the gap by move-assignment, then destroy the sz
+            // moved-from objects left at the end
+            iterator stop = end();
+            iterator dst = first;
+            for (iterator src = last; src != stop; ++src, ++dst)
             {
-                igris::destructor(first + i);
+                *dst = std::move(*src);
             }
-            std::move(last, end(), first);
+            igris::array_destructor(dst, stop);
             m_size -= sz;
         }
 
